@@ -181,13 +181,15 @@ Definition bulk (fx atomic cont : bool) (s : mst) (ws : list write) : mst * list
 Inductive eop :=
 | OWrite (w : write)
 | OBulk (atomic cont : bool) (ws : list write)
-| OFailCommit (n : nat).      (* harness: arm the COMMIT fault switch *)
+| OFailCommit (n : nat)       (* harness: arm the COMMIT fault switch *)
+| ODisarm.                    (* harness: switch off *)
 
 Definition eop_run (fx : bool) (s : mst) (o : eop) : mst * list act :=
   match o with
   | OWrite w => let '(s1, tr, _) := facade_write fx s w in (s1, tr)
   | OBulk a c ws => bulk fx a c s ws
   | OFailCommit n => (with_cfail s (Some n), [])
+  | ODisarm => (with_cfail s None, [])
   end.
 
 Fixpoint run_ops (fx : bool) (s : mst) (ops : list eop) : mst * list act :=
@@ -198,6 +200,9 @@ Fixpoint run_ops (fx : bool) (s : mst) (ops : list eop) : mst * list act :=
 
 Definition fresh (init : bool) : mst := {| initializing := init; next_log := 1; cfail := None |}.
 Definition trace_of (fx init : bool) (ops : list eop) : list act := snd (run_ops fx (fresh init) ops).
+(* same, on a ledger whose log sequence stands at [n] (the harness prepares in-use ledgers with a few writes) *)
+Definition trace_from (fx init : bool) (n : Z) (ops : list eop) : list act :=
+  snd (run_ops fx {| initializing := init; next_log := n; cfail := None |} ops).
 
 (* ---------- the property as an executable judgement on a trace ----------
    pending = logs appended inside the open top-level transaction; ready = logs made durable by a COMMIT whose
@@ -245,7 +250,7 @@ Definition check (tr : list act) : verdict :=
 (* hypotheses of the partial theorem *)
 Definition write_no_hit (w : write) : bool := match w_out w with WHit _ => false | _ => true end.
 Definition eop_no_hit (o : eop) : bool :=
-  match o with OWrite w => write_no_hit w | OBulk _ _ ws => forallb write_no_hit ws | OFailCommit _ => true end.
+  match o with OWrite w => write_no_hit w | OBulk _ _ ws => forallb write_no_hit ws | OFailCommit _ | ODisarm => true end.
 
 (* ---------- the scenario grid of the property's quantifier ----------
    context x outcome, on a ledger already in use unless the context says otherwise; in the bulk contexts the write
